@@ -179,6 +179,7 @@ Theorem C04_cli_roundtrip :
   forall (mt : bool) (args : list arg) (s : cli_state) (fileSize : Z) (dict content : list Z),
   parse_args cli_init args = Some s ->
   (fileSize = 0 \/ fileSize = lenZ content) ->
+  lenZ content < U64_MAX1 ->
   let F := cli_compress LZ4F_header LZ4F_frame LZ4F_update LZ4F_end LZ4_block mt s fileSize dict content in
   stream_decode bdec skipcrc (S (length F)) dict [] F = Some content.
 Proof. exact cli_roundtrip. Qed.
